@@ -246,6 +246,9 @@ func runWorker(ck *Check, tier string, seed int64, w, n int) {
 	caseTimeout := ck.CaseTimeout
 	if caseTimeout == 0 {
 		caseTimeout = 15 * time.Minute
+		if tier == "quick" {
+			caseTimeout = 4 * time.Minute
+		}
 	}
 	var started time.Time
 	var startedMu sync.Mutex
